@@ -406,7 +406,9 @@ def build_tree(paths):
 # symbolic stand-ins for the foreign names the kernels use
 # --------------------------------------------------------------------------
 def _has_sym(x) -> bool:
-    if isinstance(x, (Sym, SymBool)):
+    """Symbolic operands -- or exact Fraction operands (the search runs the
+    same real function bodies under the same stand-ins on Fractions)."""
+    if isinstance(x, (Sym, SymBool, Fraction)):
         return True
     if isinstance(x, _np.ndarray):
         return x.dtype == object and any(_has_sym(e) for e in x.flat)
@@ -433,24 +435,39 @@ def s_array(x, dtype=None, **kw):
 def s_float(x=0.0):
     """builtin float(): the identity on a symbolic real (only injected into
     triangulation.py, where Triangulation.volume wraps its result in float())."""
-    if isinstance(x, Sym):
+    if isinstance(x, (Sym, Fraction)):
         return x
-    if isinstance(x, _np.ndarray) and x.dtype == object and x.size == 1 and isinstance(x.item(), Sym):
+    if isinstance(x, _np.ndarray) and x.dtype == object and x.size == 1 and isinstance(x.item(), (Sym, Fraction)):
         return x.item()
     return float(x)
+
+
+def _fsqrt(q: Fraction):
+    """sqrt of an exact rational: exact when it is a perfect square, else the
+    correctly rounded double of the rational's double (exact-mode runs only)."""
+    if q < 0:
+        raise ValueError("math domain error")
+    rn, rd = math.isqrt(q.numerator), math.isqrt(q.denominator)
+    if rn * rn == q.numerator and rd * rd == q.denominator:
+        return Fraction(rn, rd)
+    return math.sqrt(q)
 
 
 def s_sqrt(x):
     if isinstance(x, Sym):
         return x.sqrt()
+    if isinstance(x, Fraction):
+        return _fsqrt(x)
     if isinstance(x, _np.ndarray) and x.dtype == object:
-        return _np.sqrt(x)          # object loop -> Sym.sqrt
+        return _np.frompyfunc(s_sqrt, 1, 1)(x)
     return math.sqrt(x)
 
 
 def s_np_sqrt(x):
-    if isinstance(x, Sym):
-        return x.sqrt()
+    if isinstance(x, (Sym, Fraction)):
+        return s_sqrt(x)
+    if isinstance(x, _np.ndarray) and x.dtype == object:
+        return _np.frompyfunc(s_sqrt, 1, 1)(x)
     return _np.sqrt(x)
 
 
@@ -459,10 +476,12 @@ def s_hypot(a, b):
     if not (_has_sym(a) or _has_sym(b)):
         return _np.hypot(a, b)
     def h(x, y):
-        n = lift(x * x + y * y)
-        if n is None:
-            raise TraceError("hypot of a non-number")
-        return Sym(n_sqrt(n))
+        r = x * x + y * y
+        if isinstance(r, Sym):
+            return r.sqrt()
+        if isinstance(r, Fraction):
+            return _fsqrt(r)
+        raise TraceError("hypot of a non-number")
     if isinstance(a, _np.ndarray) or isinstance(b, _np.ndarray):
         return _np.frompyfunc(h, 2, 1)(a, b)
     return h(a, b)
@@ -522,6 +541,9 @@ def s_slogdet(m):
     if m.dtype != object:
         return _np.linalg.slogdet(m)
     d = s_det(m)
+    if not isinstance(d, Sym):          # exact mode
+        d = Fraction(d)
+        return (d > 0) - (d < 0), (math.log(abs(d)) if d else -math.inf)
     dn = lift(d)
     return Sym(mk("sgn", dn)), Sym(mk("ln", n_abs(dn)))
 
@@ -529,7 +551,7 @@ def s_slogdet(m):
 def s_zeros(shape, dtype=None, **kw):
     """numpy.zeros: while tracing, an object array of exact zeros so that
     symbolic entries can be stored into it."""
-    if dtype is None and _ACTIVE:
+    if dtype is None and (_ACTIVE or _EXACT[0]):
         a = _np.empty(shape, dtype=object)
         a.fill(0)
         return a
@@ -653,6 +675,18 @@ SUBST = {
 
 
 _MISSING = object()
+_EXACT = [False]
+
+
+@contextlib.contextmanager
+def exact_mode(mods):
+    """Run real function bodies on Fraction operands under the stand-ins."""
+    with patched(mods):
+        _EXACT[0] = True
+        try:
+            yield
+        finally:
+            _EXACT[0] = False
 
 
 @contextlib.contextmanager
@@ -929,7 +963,7 @@ def evaluate(tree, env: dict, num=float):
     t = tree
     while t[0] == "if":
         t = t[2] if bev(t[1]) else t[3]
-    return leaf(t)
+    return leaf(t[1])
 
 
 # --------------------------------------------------------------------------
